@@ -254,6 +254,17 @@ fn main() {
         for l in &hist_vals {
             println!("D {} {}", l, dir_name(l.id.character_direction()));
         }
+        // every key of the bundled likelySubtags data and every CLDR layout locale (the list is
+        // written by the checker from the data files; one identifier per line)
+        if let Ok(path) = std::env::var("C20_DIR_IDS") {
+            if let Ok(txt) = std::fs::read_to_string(&path) {
+                for l in txt.lines() {
+                    if let Ok(li) = l.parse::<LanguageIdentifier>() {
+                        println!("D {} {}", li, dir_name(li.character_direction()));
+                    }
+                }
+            }
+        }
         println!("DONE");
     }
 }
